@@ -82,6 +82,31 @@ class _BufferedLoadAndSave(_LoadAndSave):
             self._collection._buffer_lock.__exit__(exc_type, exc_val, exc_tb)
 
 
+class _BufferedMutationLock:
+    """The buffer lock, then the collection's lock: the order of _BufferedLoadAndSave.
+
+    Taking only the collection's lock and then (inside the save) the buffer lock is
+    the opposite order and deadlocks against every other buffered operation.
+    """
+
+    def __init__(self, collection):
+        self._collection = collection
+
+    def __enter__(self):
+        self._collection._buffer_lock.__enter__()
+        try:
+            self._collection._thread_lock.__enter__()
+        except BaseException:
+            self._collection._buffer_lock.__exit__(*sys.exc_info())
+            raise
+
+    def __exit__(self, exc_type, exc_val, exc_tb):
+        try:
+            self._collection._thread_lock.__exit__(exc_type, exc_val, exc_tb)
+        finally:
+            self._collection._buffer_lock.__exit__(exc_type, exc_val, exc_tb)
+
+
 class FileBufferedCollection(BufferedCollection):
     """A :class:`~.SyncedCollection` that can buffer file I/O.
 
@@ -176,6 +201,10 @@ class FileBufferedCollection(BufferedCollection):
     def _buffer_lock(self):
         """Acquire the buffer lock."""
         return type(self)._BUFFER_LOCK
+
+    @property
+    def _mutation_lock(self):
+        return _BufferedMutationLock(self)
 
     def _get_file_metadata(self):
         """Return metadata of file.
